@@ -227,6 +227,8 @@ pub enum BreakKind {
     ArgCountChanged,
     ArgTypeChanged,
     RetTypeChanged,
+    /// the signature of a closure argument loses its last parameter (or gains one if it had none)
+    ClosureArgsChanged,
 }
 
 impl BreakKind {
@@ -236,6 +238,7 @@ impl BreakKind {
             BreakKind::ArgCountChanged => "arg_count_changed",
             BreakKind::ArgTypeChanged => "arg_type_changed",
             BreakKind::RetTypeChanged => "ret_type_changed",
+            BreakKind::ClosureArgsChanged => "closure_args_changed",
         }
     }
 }
